@@ -84,6 +84,7 @@ class C04(Prop):
                    'window bounds are given in clock units (ns) when injected directly into the action config']
     quick_examples = 2000
     thorough_examples = 10000
+    fuzz_runs = 15000
     floors = {'history': 0.4, 'allow_and_refuse': 0.25, 'overlap': 0.1, 'boundary_gap': 0.15, 'window': 0.1}
 
     def strategy(self, tier):
